@@ -366,3 +366,57 @@ pub fn finish(monitor: &dyn Monitor, cfg: &RunCfg, streams: &[StreamSpec], merge
         EXIT_HELD
     }
 }
+
+
+// ---------------------------------------------------------------------------------------------
+// input placement: the same bytes at every alignment
+
+thread_local! {
+    static ARENA: std::cell::RefCell<Vec<u8>> = const { std::cell::RefCell::new(Vec::new()) };
+}
+
+/// Calls `f` with a copy of `x` that starts at address = `salt % 16` (mod 16): heap buffers are
+/// always 16-aligned, real network buffers are sliced at arbitrary offsets, and code with
+/// word-wise fast paths can depend on the difference. The bytes before and after the copy are
+/// 0xEE filler inside the same allocation.
+pub fn placed<R>(x: &[u8], salt: u64, f: impl FnOnce(&[u8]) -> R) -> R {
+    let mut arena = ARENA.with(|a| std::mem::take(&mut *a.borrow_mut()));
+    arena.clear();
+    arena.reserve(x.len() + 48);
+    let base = arena.as_ptr() as usize;
+    // consecutive cases of one thread differ by the thread count (usually 16): fold higher bits in
+    let want = ((salt ^ (salt >> 4) ^ (salt >> 9)) % 16) as usize;
+    let off = (want + 16 - base % 16) % 16;
+    arena.resize(off, 0xEE);
+    arena.extend_from_slice(x);
+    arena.extend_from_slice(&[0xEE; 16]);
+    let r = f(&arena[off..off + x.len()]);
+    ARENA.with(|a| *a.borrow_mut() = arena);
+    r
+}
+
+/// Like `placed`, for a whole history: every element is copied to the *same* address in turn
+/// (a receive buffer that is refilled), `f` is called once per element.
+pub fn placed_seq(items: &[Vec<u8>], salt: u64, mut f: impl FnMut(&[u8])) {
+    let max = items.iter().map(|v| v.len()).max().unwrap_or(0);
+    let mut arena = ARENA.with(|a| std::mem::take(&mut *a.borrow_mut()));
+    arena.clear();
+    arena.reserve(max + 48);
+    let base = arena.as_ptr() as usize;
+    let want = ((salt ^ (salt >> 4) ^ (salt >> 9)) % 16) as usize;
+    let off = (want + 16 - base % 16) % 16;
+    for x in items {
+        arena.clear();
+        arena.resize(off, 0xEE);
+        arena.extend_from_slice(x);
+        arena.extend_from_slice(&[0xEE; 16]);
+        debug_assert_eq!(arena.as_ptr() as usize, base);
+        f(&arena[off..off + x.len()]);
+    }
+    ARENA.with(|a| *a.borrow_mut() = arena);
+}
+
+/// Which cases get a history around them (`sib`): one in `one_in`, chosen by the case index.
+pub fn with_history(idx: u64, one_in: u64) -> bool {
+    crate::rng::mix(idx ^ 0x4157) % one_in == 0
+}
